@@ -155,7 +155,8 @@ def probe(sess, op, rec=None, full=False):
                 if not isinstance(obj, req_cls):
                     raise Violation("C07:get-wrong-class", f"{where}: get({sname},{sver}) at {p} -> {type(obj).__name__}", req_cls.__name__)
                 ok = False
-                for stored_name, via, _ in cands:
+                exact = [c for c in cands if c[1] == "exact" and c[0] == sname]
+                for stored_name, via, _ in (exact or cands):  # an object stored under the requested schema itself wins
                     js = m.meta[p][stored_name]["json"]
                     try:
                         expected = req_cls.parse_obj(js).json_dict()
